@@ -87,6 +87,32 @@ def run(ctx):
     # R18.3
     ar.compat_checks_rule(ctx, 'R18.3')
     _validate_early(ctx)
+    _filter_validation(ctx)
+    from . import callsigs as _cs
+    _cs.general_rules(ctx, 'R18', ['writer.write', 'writer.overwrite', 'writer.write_simple', 'writer.write_multi', 'writer.partition_on_columns', 'writer.make_part_file', 'writer.make_row_group', 'api.ParquetFile.write_row_groups', 'api.ParquetFile.remove_row_groups', 'api.ParquetFile.to_pandas', 'writer.write_common_metadata', 'writer.consolidate_categories'])
+
+
+def _filter_validation(ctx):
+    api = ctx.repo['api']
+    f = api.func('filter_row_groups')
+    known = [s for s in iter_child_stmts(f.body) if isinstance(s, ast.Assign) and norm(s.targets[0]) == 'known']
+    ok = len(known) == 1 and isinstance(known[0].value, ast.ListComp)
+    d = ''
+    if ok:
+        gens = known[0].value.generators
+        d = norm(known[0].value)
+        ok = len(gens) == 2 and norm(gens[0].iter) == 'filters' and norm(gens[1].iter) == norm(gens[0].target) and not gens[0].ifs \
+            and not gens[1].ifs and norm(known[0].value.elt).endswith('in as_cols')
+    ctx.ob('R18.3', 'api.filter_row_groups:every-condition-of-every-group-is-validated', ok,
+           'the existence check must range over all OR groups and all their conditions: %s' % d[:120], api.loc(f))
+    ac = [s for s in iter_child_stmts(f.body) if isinstance(s, ast.Assign) and norm(s.targets[0]) == 'as_cols']
+    ctx.ob('R18.3', 'api.filter_row_groups:known-columns-are-data-plus-partition-columns',
+           len(ac) == 1 and norm(ac[0].value) == 'pf.columns + list(pf.cats.keys())', norm(ac[0]) if ac else '', api.loc(f))
+    cfg = CFG(f)
+    r = [s for s in iter_child_stmts(f.body) if isinstance(s, ast.Raise)]
+    rets = [s for s in iter_child_stmts(f.body) if isinstance(s, ast.Return)]
+    ctx.ob('R18.3', 'api.filter_row_groups:validation-precedes-selection', len(r) == 1 and all(
+        not cfg.exists_path(cfg.node_of(x), cfg.node_of(r[0])) for x in rets), '', api.loc(f))
 
 
 def _call_stmt(func, name):
